@@ -13,6 +13,9 @@ import Rl.Editor
 import Rl.Lemmas.Undo
 import Rl.Lemmas.EditorLoops
 import Rl.Lemmas.UndoBottom
+import Rl.Lemmas.UndoUnits
+import Rl.Lemmas.YankOneUnit
+import Rl.Lemmas.InsertOneUnit
 open Rl
 
 /-! ### the stack is an exact log -/
@@ -863,3 +866,425 @@ example : AboveNB [.insert 0 ['a']] [.replace 0 ['a'] ['a', 'b'], .begin, .inser
   ⟨⟨[.replace 0 ['a'] ['a', 'b']], rfl, _, List.mem_cons_self, (by intro h; cases h)⟩,
    ⟨[], ['a'], [], (by decide), rfl⟩⟩
 
+
+/-! ### repeated Undo reaches the start of the read — for every sequence of log operations -/
+
+/-- `Changeset::undo(line, n)` requested `k` times in a row (each time with the repeat count `n`) -/
+def C05_undoIter (S : Segmenter) (U : UData) (n : Nat) : Nat → Changeset → LB → Except Panic (Changeset × LB)
+  | 0, c, lb => .ok (c, lb)
+  | k + 1, c, lb =>
+    match c.undo S U lb n with
+    | .ok (c', lb', _) => C05_undoIter S U n k c' lb'
+    | .error e => .error e
+
+/-- **Repeating Undo restores the text the log started from.**  If the stack is an exact log from `t0` to
+    the text of the line (any markers, any open groups, any level), then requesting Undo `k` times in a
+    row — with ANY repeat count `n`, and any `k` at least the height of the stack — never panics, empties
+    the stack and leaves the line holding exactly `t0` (the empty line for a read: pre-filled initial text
+    is the first recorded insertion).  This is the iteration of `C05_undo_to_empty`, which is about one
+    request. -/
+theorem C05_repeated_undo_reaches_start (S : Segmenter) (U : UData) (n : Nat) (t0 : Text) :
+    ∀ (k : Nat) (c : Changeset) (lb : LB), replayLog c.undos.reverse t0 = some lb.buf → c.undos.length ≤ k →
+      ∃ c' lb', C05_undoIter S U n k c lb = .ok (c', lb') ∧ c'.undos = [] ∧ lb'.buf = t0 := by
+  intro k
+  induction k with
+  | zero =>
+    intro c lb hlog hk
+    have hnil : c.undos = [] := List.length_eq_zero_iff.mp (Nat.le_zero.mp hk)
+    refine ⟨c, lb, rfl, hnil, ?_⟩
+    rw [hnil] at hlog
+    simpa [replayLog] using hlog.symm
+  | succ k ih =>
+    intro c lb hlog hk
+    obtain ⟨c', lb', undone, h1, h2, p, hp, _, hne⟩ := C05_undo_past_text S U c lb n t0 hlog
+    have hlen : c'.undos.length ≤ k := by
+      by_cases hnil : c.undos = []
+      · rw [hnil] at hp
+        have : c'.undos = [] := (List.append_eq_nil_iff.mp hp.symm).2
+        rw [this]; exact Nat.zero_le _
+      · have hp0 : 0 < p.length := List.length_pos_iff.mpr (hne hnil)
+        have : c.undos.length = p.length + c'.undos.length := by rw [hp, List.length_append]
+        omega
+    obtain ⟨c'', lb'', h3, h4, h5⟩ := ih c' lb' h2 hlen
+    refine ⟨c'', lb'', ?_, h4, h5⟩
+    simp only [C05_undoIter, h1]
+    exact h3
+
+/-- the states of (undo log, line) a read can be in, at the level of the log: it starts with the fresh log
+    and the empty line; a line-buffer call reports notifications `ns` whose replay takes the old text to the
+    new one (`ns = []`: cursor motion; `C05_primitives_faithful`, C03) and the listener records them; a
+    compound command opens a group or closes all groups; Undo is requested with any repeat count — at ANY
+    point, also inside open groups, and any number of times -/
+inductive C05_LogReach (S : Segmenter) (U : UData) : Changeset → LB → Prop
+  | start (lb : LB) : lb.buf = [] → C05_LogReach S U Changeset.new lb
+  | edit {c : Changeset} {lb : LB} (ns : List Notif) (lb' : LB) : C05_LogReach S U c lb →
+      replayNotifs ns lb.buf = some lb'.buf → C05_LogReach S U (c.onNotifs S U.alnum ns) lb'
+  | begin {c : Changeset} {lb : LB} : C05_LogReach S U c lb → C05_LogReach S U c.begin.1 lb
+  | end_ {c : Changeset} {lb : LB} : C05_LogReach S U c lb → C05_LogReach S U c.end_.1 lb
+  | undo {c : Changeset} {lb : LB} (n : Nat) (c' : Changeset) (lb' : LB) (u : Bool) : C05_LogReach S U c lb →
+      c.undo S U lb n = .ok (c', lb', u) → C05_LogReach S U c' lb'
+
+/-- **Every reachable log is an exact, balanced log from the empty line.**  After ANY sequence of faithful
+    edits, group begins, group ends and Undo requests (every repeat count, at every point of the sequence)
+    starting from the fresh log and the empty line: replaying the stack oldest change first from the EMPTY
+    text gives the text of the line, and `level` is the number of unmatched `Begin`s with every `End`
+    matched. -/
+theorem C05_reachable_log_exact (S : Segmenter) (U : UData) (c : Changeset) (lb : LB) (h : C05_LogReach S U c lb) :
+    replayLog c.undos.reverse [] = some lb.buf ∧ Balanced c := by
+  induction h with
+  | start lb hb => exact ⟨by rw [hb]; rfl, rfl⟩
+  | edit ns lb' _ hns ih =>
+    exact ⟨C05_log_replay S U.alnum _ ns [] _ _ ih.1 hns, (C05_balanced S U.alnum _ ih.2).2.2.1 ns⟩
+  | begin _ ih => exact ⟨(C05_log_markers _ [] _ ih.1).1, (C05_balanced S U.alnum _ ih.2).2.1⟩
+  | end_ _ ih => exact ⟨(C05_log_markers _ [] _ ih.1).2, (C05_balanced S U.alnum _ ih.2).2.2.2.1.1⟩
+  | undo n c' lb' u _ hu ih =>
+    refine ⟨?_, C05_undo_balanced S U _ ih.2 _ n c' lb' u hu⟩
+    obtain ⟨c2, lb2, u2, h1, h2, _⟩ := C05_undo_past_text S U _ _ n [] ih.1
+    rw [hu] at h1
+    simp only [Except.ok.injEq, Prod.mk.injEq] at h1
+    obtain ⟨rfl, rfl, _⟩ := h1
+    exact h2
+
+/-- **From every reachable state, Undo never panics and repeated Undo restores the empty line.**  For every
+    state reached by any sequence of faithful edits, group begins/ends and Undo requests: (1) an Undo with
+    any repeat count `n` succeeds, pops a non-empty top part of the stack when there is one, and leaves a
+    reachable state whose line is the replay of the remaining log from the empty text — a text the line had
+    earlier in the read; (2) requesting Undo as many times as the stack is high (any repeat count) empties
+    the stack and leaves the EMPTY line the read started from. -/
+theorem C05_reachable_undo_to_empty (S : Segmenter) (U : UData) (c : Changeset) (lb : LB)
+    (h : C05_LogReach S U c lb) (n : Nat) :
+    (∃ c' lb' u, c.undo S U lb n = .ok (c', lb', u) ∧ C05_LogReach S U c' lb' ∧
+      replayLog c'.undos.reverse [] = some lb'.buf ∧
+      ∃ p, c.undos = p ++ c'.undos ∧ (c.undos ≠ [] → p ≠ [])) ∧
+    (∃ c' lb', C05_undoIter S U n c.undos.length c lb = .ok (c', lb') ∧ c'.undos = [] ∧ lb'.buf = []) := by
+  have hl := (C05_reachable_log_exact S U c lb h).1
+  constructor
+  · obtain ⟨c', lb', u, h1, h2, p, hp, _, hne⟩ := C05_undo_past_text S U c lb n [] hl
+    exact ⟨c', lb', u, h1, .undo n c' lb' u h h1, h2, p, hp, hne⟩
+  · exact C05_repeated_undo_reaches_start S U n [] _ c lb hl (Nat.le_refl _)
+
+/-- non-vacuity: a reachable state with an open group, a merged insertion and an Undo taken inside the
+    group — type "ab" (merged), open a group, delete "b" — and the hypotheses of
+    `C05_repeated_undo_reaches_start` on it -/
+example : C05_LogReach charSeg C05_wit_udata
+    { level := 1, undos := [.delete 1 ['b'], .begin, .insert 0 ['a', 'b']], redos := [] }
+    { buf := ['a'], pos := 1, cap := 8, canGrow := true } :=
+  .edit (c := (Changeset.new.onNotifs charSeg C05_wit_udata.alnum [.insChar 0 'a', .insChar 1 'b']).begin.1)
+    (lb := { buf := ['a', 'b'], pos := 2, cap := 8, canGrow := true }) [.del 1 ['b'] .backward] _
+    (.begin (.edit (lb := { buf := [], pos := 0, cap := 8, canGrow := true }) [.insChar 0 'a', .insChar 1 'b'] _
+      (.start _ rfl) (by decide))) (by decide)
+
+/-! ### with no group open, one Undo takes back exactly the most recent unit -/
+
+/-- **A balanced stack with no open group is a sequence of undo units**: if `level = 0`, the markers are
+    balanced (`Balanced`, an invariant of all log operations) and the stack is not empty, then its top is
+    one undo unit — the most recent single change, or the most recent complete `Begin … End` group with a
+    well-nested inside — and what is below is again a stack without unmatched markers. -/
+theorem C05_closed_stack_top_unit (c : Changeset) (hb : Balanced c) (h0 : c.level = 0) (hne : c.undos ≠ []) :
+    ∃ u rest, c.undos = u ++ rest ∧ UndoUnit u ∧ depth rest = some 0 := by
+  have hd : depth c.undos = some 0 := by rw [← h0]; exact hb
+  have hn := nested_of_depth_zero hd
+  generalize c.undos = us at hn hne
+  cases hn with
+  | nil => exact absurd rfl hne
+  | change ch l hm hl => exact ⟨[ch], l, rfl, .change ch hm, depth_of_nested hl⟩
+  | group a b ha hb' => exact ⟨.end_ :: a ++ [.begin], b, by simp, .group a ha, depth_of_nested hb'⟩
+
+/-- **One Undo = exactly the most recent unit, on the model's own `Changeset.undo`.**  If the stack is an
+    exact log from `t0` to the line, the markers are balanced, no group is open and the stack is not
+    empty, then `undo(line, 1)` does not panic, pops EXACTLY the top unit `u` (one change — which may be a
+    merged run of single alphanumeric insertions/deletions — or one complete group), pushes it on the redo
+    stack, and leaves the line at the replay of the rest of the log from `t0`: the text the line had
+    right before the first change of that unit was recorded.  It never goes past that state.  (The
+    hypotheses hold in every `C05_LogReach` state with level 0: `C05_reachable_log_exact`.) -/
+theorem C05_undo_one_pops_top_unit (S : Segmenter) (U : UData) (c : Changeset) (lb : LB) (t0 : Text)
+    (hlog : replayLog c.undos.reverse t0 = some lb.buf) (hb : Balanced c) (h0 : c.level = 0)
+    (hne : c.undos ≠ []) :
+    ∃ u rest lb' lvl, c.undos = u ++ rest ∧ UndoUnit u ∧
+      c.undo S U lb 1 = .ok ({ level := lvl, undos := rest, redos := u.reverse ++ c.redos }, lb',
+        u.any (fun ch => !ch.isMarker)) ∧
+      replayLog rest.reverse t0 = some lb'.buf := by
+  obtain ⟨u, rest, hu, hunit, _⟩ := C05_closed_stack_top_unit c hb h0 hne
+  rw [hu] at hlog
+  obtain ⟨lb', h1, h2⟩ := undoAll_replay S U u rest t0 lb.buf lb hlog rfl
+  obtain ⟨lvl, h3⟩ := C05_undo_unit_model S U u rest c.redos hunit lb lb' c.level h1
+  refine ⟨u, rest, lb', lvl, hu, hunit, ?_, h2⟩
+  simp only [Changeset.undo, hu, h3]
+
+/-- non-vacuity of `C05_undo_one_pops_top_unit`: a closed group on top of a merged insertion -/
+example : replayLog ([.end_, .delete 1 ['b'], .begin, .insert 0 ['a', 'b']] : List Change).reverse [] = some ['a'] ∧
+    Balanced { level := 0, undos := [.end_, .delete 1 ['b'], .begin, .insert 0 ['a', 'b']], redos := [] } :=
+  ⟨by decide, by simp [Balanced, depth]⟩
+
+/-! ### Undo with a repeat count takes back exactly that many units -/
+
+/-- **Counted Undo, abstract step.**  With the stack `u₁ ++ … ++ u_k ++ rest` (each `u_i` one undo unit,
+    `k ≥ 1`), the loop of `Changeset::undo` at depth 0 with `count` units already done, where either
+    exactly `k` more units are requested (`count + k = n`) or more are requested than there are and nothing
+    lies below (`rest = []`): the loop pops exactly these `k` units — no more, no fewer —, pushes them on
+    the redo stack and has applied the undo steps of exactly their changes, most recent first. -/
+theorem C05_undo_count_units {σ : Type} (step : Change → σ → Except Panic σ) (n : Nat)
+    (units : List (List Change)) (hall : ∀ u ∈ units, UndoUnit u) (rest : List Change) :
+    ∀ (redos : List Change) (s s' : σ) (count : Nat) (undone : Bool),
+      undoAll step units.flatten s = .ok s' → units ≠ [] →
+      (count + units.length = n ∨ (count + units.length < n ∧ rest = [])) →
+      ∃ ud, undoLoopG step n (units.flatten ++ rest) redos s 0 count undone =
+        .ok (rest, units.flatten.reverse ++ redos, s', ud) := by
+  induction units with
+  | nil => intro _ _ _ _ _ _ hne; exact absurd rfl hne
+  | cons u us ih =>
+    intro redos s s' count undone hs _ hc
+    simp only [List.flatten_cons] at hs ⊢
+    obtain ⟨s1, h1, h2⟩ := (undoAll_append_iff step u us.flatten s s').mp hs
+    rw [List.append_assoc, C05_undo_unit step n u (us.flatten ++ rest) redos (hall u List.mem_cons_self)
+      s s1 count undone h1]
+    by_cases hus : us = []
+    · subst hus
+      simp only [List.flatten_nil, undoAll, Except.ok.injEq] at h2
+      subst h2
+      simp only [List.length_cons, List.length_nil, Nat.zero_add] at hc
+      simp only [List.flatten_nil, List.nil_append, List.append_nil]
+      rcases hc with hc | ⟨hc, hr⟩
+      · rw [if_pos (by omega)]; exact ⟨_, rfl⟩
+      · rw [if_neg (by omega), hr]; exact ⟨_, rfl⟩
+    · have hpos : 0 < us.length := List.length_pos_iff.mpr hus
+      simp only [List.length_cons] at hc
+      rw [if_neg (by omega)]
+      obtain ⟨ud, hud⟩ := ih (fun u hu => hall u (List.mem_cons_of_mem _ hu)) (u.reverse ++ redos) s1 s'
+        (count + 1) (undone || u.any (fun c => !c.isMarker)) h2 hus
+        (by rcases hc with hc | ⟨hc, hr⟩
+            · left; omega
+            · right; exact ⟨by omega, hr⟩)
+      exact ⟨ud, by rw [hud, List.reverse_append, List.append_assoc]⟩
+
+/-- a stack without unmatched markers is a sequence of undo units, most recent first -/
+theorem C05_closed_stack_units : ∀ (k : Nat) (us : List Change), us.length ≤ k → depth us = some 0 →
+    ∃ units : List (List Change), us = units.flatten ∧ ∀ u ∈ units, UndoUnit u := by
+  intro k
+  induction k with
+  | zero =>
+    intro us hk _
+    have : us = [] := List.length_eq_zero_iff.mp (Nat.le_zero.mp hk)
+    exact ⟨[], by simp [this], by simp⟩
+  | succ k ih =>
+    intro us hk hd
+    by_cases hne : us = []
+    · exact ⟨[], by simp [hne], by simp⟩
+    · obtain ⟨u, rest, hu, hunit, hdr⟩ :=
+        C05_closed_stack_top_unit { level := 0, undos := us, redos := [] } hd rfl hne
+      have hul : 0 < u.length := by cases hunit <;> simp
+      have hlen : rest.length ≤ k := by
+        have : us.length = u.length + rest.length := by
+          show ({ level := 0, undos := us, redos := [] } : Changeset).undos.length = _
+          rw [hu, List.length_append]
+        omega
+      obtain ⟨units, hf, hall⟩ := ih rest hlen hdr
+      refine ⟨u :: units, ?_, ?_⟩
+      · show ({ level := 0, undos := us, redos := [] } : Changeset).undos = _
+        rw [hu, hf]; rfl
+      · intro x hx
+        rcases List.mem_cons.mp hx with rfl | hx
+        · exact hunit
+        · exact hall x hx
+
+/-- **Undo with repeat count `n` takes back exactly `n` units** (all of them when there are fewer), on the
+    model's own `Changeset.undo`.  If the stack is an exact log from `t0` to the line, the markers are
+    balanced and no group is open, then the stack is a sequence `units` of undo units (most recent first;
+    a unit is one change — possibly a merged run of single-character edits — or one complete group), and
+    for EVERY repeat count `n ≥ 1` the call `undo(line, n)` does not panic, pops exactly the first `n`
+    units (everything when `n` exceeds their number), pushes them on the redo stack, and leaves the line
+    at the replay of the remaining log from `t0` — the text the line had before the oldest of these `n`
+    units was recorded.  So a counted Undo is never coarser and never finer than `n` single Undos
+    (`C05_undo_one_pops_top_unit` is the case `n = 1`). -/
+theorem C05_undo_n_pops_n_units (S : Segmenter) (U : UData) (c : Changeset) (lb : LB) (t0 : Text)
+    (hlog : replayLog c.undos.reverse t0 = some lb.buf) (hb : Balanced c) (h0 : c.level = 0)
+    (hne : c.undos ≠ []) :
+    ∃ units : List (List Change), c.undos = units.flatten ∧ (∀ u ∈ units, UndoUnit u) ∧
+      ∀ n, 1 ≤ n → ∃ lb' lvl ud,
+        c.undo S U lb n = .ok (⟨lvl, (units.drop n).flatten, (units.take n).flatten.reverse ++ c.redos⟩, lb', ud) ∧
+        replayLog (units.drop n).flatten.reverse t0 = some lb'.buf := by
+  have hd : depth c.undos = some 0 := by rw [← h0]; exact hb
+  obtain ⟨units, hf, hall⟩ := C05_closed_stack_units _ c.undos (Nat.le_refl _) hd
+  refine ⟨units, hf, hall, ?_⟩
+  intro n hn
+  have hune : units ≠ [] := by
+    intro h; rw [h] at hf; exact hne (by simpa using hf)
+  have hsplit : c.undos = (units.take n).flatten ++ (units.drop n).flatten := by
+    rw [← List.flatten_append, List.take_append_drop]; exact hf
+  rw [hsplit] at hlog
+  obtain ⟨lb', h1, h2⟩ := undoAll_replay S U _ _ t0 lb.buf lb hlog rfl
+  have htne : units.take n ≠ [] := by
+    cases units with
+    | nil => exact absurd rfl hune
+    | cons u us => cases n with
+      | zero => omega
+      | succ m => simp
+  have hc : 0 + (units.take n).length = n ∨ (0 + (units.take n).length < n ∧ (units.drop n).flatten = []) := by
+    rw [List.length_take]
+    by_cases hle : n ≤ units.length
+    · left; omega
+    · right
+      refine ⟨by omega, ?_⟩
+      rw [List.drop_of_length_le (by omega)]; rfl
+  obtain ⟨ud, h3⟩ := C05_undo_count_units (fun ch lb => ch.undoOn S U lb) n (units.take n)
+    (fun u hu => hall u (List.mem_of_mem_take hu)) (units.drop n).flatten c.redos lb lb' 0 false h1 htne hc
+  obtain ⟨lvl, h4⟩ := undoLoop_of_G S U n _ _ _ _ _ _ c.level _ h3
+  refine ⟨lb', lvl, ud, ?_, h2⟩
+  simp only [Changeset.undo, hsplit, h4]
+
+/-! ### one Undo inside an open group (a vi insert session) -/
+
+/-- **One Undo at ANY group level** — also when it is requested inside an open group (vi insert session:
+    `level ≥ 1`).  If the stack is an exact log from `t0` to the line, the markers are balanced and the
+    stack is not empty, then `undo(line, 1)` does not panic and does exactly one of two things:
+    (1) it pops exactly the top undo unit `u` (one change, or one complete group), pushes it on the redo
+        stack and leaves the line at the replay of the rest of the log from `t0`; or
+    (2) the top of the stack is the `Begin` of a group that is still open with nothing recorded in it yet:
+        it pops that marker alone, lowers the level by one and leaves the line untouched (reporting that
+        nothing was undone).
+    In neither case does it reach below the state that preceded the most recent unit. -/
+theorem C05_undo_one_any_level (S : Segmenter) (U : UData) (c : Changeset) (lb : LB) (t0 : Text)
+    (hlog : replayLog c.undos.reverse t0 = some lb.buf) (hb : Balanced c) (hne : c.undos ≠ []) :
+    (∃ u rest lb' lvl, c.undos = u ++ rest ∧ UndoUnit u ∧
+      c.undo S U lb 1 = .ok (⟨lvl, rest, u.reverse ++ c.redos⟩, lb', u.any (fun ch => !ch.isMarker)) ∧
+      replayLog rest.reverse t0 = some lb'.buf) ∨
+    (∃ rest, c.undos = .begin :: rest ∧ 1 ≤ c.level ∧
+      c.undo S U lb 1 = .ok (⟨c.level - 1, rest, .begin :: c.redos⟩, lb, false)) := by
+  have unitCase : ∀ u rest, c.undos = u ++ rest → UndoUnit u →
+      ∃ u rest lb' lvl, c.undos = u ++ rest ∧ UndoUnit u ∧
+        c.undo S U lb 1 = .ok (⟨lvl, rest, u.reverse ++ c.redos⟩, lb', u.any (fun ch => !ch.isMarker)) ∧
+        replayLog rest.reverse t0 = some lb'.buf := by
+    intro u rest hu hunit
+    rw [hu] at hlog
+    obtain ⟨lb', h1, h2⟩ := undoAll_replay S U u rest t0 lb.buf lb hlog rfl
+    obtain ⟨lvl, h3⟩ := C05_undo_unit_model S U u rest c.redos hunit lb lb' c.level h1
+    exact ⟨u, rest, lb', lvl, hu, hunit, by simp only [Changeset.undo, hu, h3], h2⟩
+  have key : ∀ (us : List Change) (L : Nat), OpenN L us → c.undos = us → c.level = L →
+      (∃ u rest lb' lvl, c.undos = u ++ rest ∧ UndoUnit u ∧
+        c.undo S U lb 1 = .ok (⟨lvl, rest, u.reverse ++ c.redos⟩, lb', u.any (fun ch => !ch.isMarker)) ∧
+        replayLog rest.reverse t0 = some lb'.buf) ∨
+      (∃ rest, c.undos = .begin :: rest ∧ 1 ≤ c.level ∧
+        c.undo S U lb 1 = .ok (⟨c.level - 1, rest, .begin :: c.redos⟩, lb, false)) := by
+    intro us L ho hus hlv
+    cases ho with
+    | closed _ hn =>
+      cases hn with
+      | nil => exact absurd hus hne
+      | change ch l hm hl => exact .inl (unitCase [ch] l hus (.change ch hm))
+      | group a b ha _ => exact .inl (unitCase (.end_ :: a ++ [.begin]) b (by rw [hus]; simp) (.group a ha))
+    | opened d a l ha hl =>
+      cases ha with
+      | nil =>
+        simp only [List.nil_append] at hus
+        refine .inr ⟨l, hus, by omega, ?_⟩
+        simp [Changeset.undo, Changeset.undoLoop, hus, hlv]
+      | change ch l' hm _ => exact .inl (unitCase [ch] (l' ++ .begin :: l) (by rw [hus]; simp) (.change ch hm))
+      | group x y hx _ =>
+        exact .inl (unitCase (.end_ :: x ++ [.begin]) (y ++ .begin :: l) (by rw [hus]; simp) (.group x hx))
+  exact key c.undos c.level (openN_of_depth c.undos c.level hb) rfl rfl
+
+/-- non-vacuity of case (1) inside an open group: vi insert session open, "ab" typed in it -/
+example : replayLog ([.insert 0 ['a', 'b'], .begin] : List Change).reverse [] = some ['a', 'b'] ∧
+    Balanced { level := 1, undos := [.insert 0 ['a', 'b'], .begin], redos := [] } :=
+  ⟨by decide, by simp [Balanced, depth]⟩
+
+/-! ### a counted yank is one undo unit -/
+
+/-- **A yank with a repeat count is taken back by one Undo — all of it and nothing else.**  Whatever is on
+    the undo stack `c` (any top entry: `Changeset::insert_str` never merges), a successful
+    `LineBuffer::yank(text, n)` with `n ≥ 1` on the line `lb0` — the call the editor makes for `Yank`,
+    vi `p`/`P` with a count — adds exactly ONE entry `Insert(cursor, text repeated n times)` on top of the
+    stack and leaves the group level alone; and the next `undo(line, 1)` pops exactly that entry, leaves
+    the stack as it was before the yank, and restores the text the line had before the yank: neither a
+    part of the `n` copies nor anything recorded before them.  (What is typed AFTER the yank may be merged
+    into the entry: D22, `C05_D22_witness`.) -/
+theorem C05_counted_yank_one_unit (S : Segmenter) (U : UData) (c : Changeset) (lb0 l : LB) (text : Text)
+    (n : Nat) (hn : 1 ≤ n) (push : Bool) (ns : List Notif)
+    (hy : LB.yank S U text n lb0 = .ok (some push, l, ns)) :
+    (c.onNotifs S U.alnum ns).undos = .insert lb0.pos (List.replicate n text).flatten :: c.undos ∧
+    (c.onNotifs S U.alnum ns).level = c.level ∧
+    ∃ lb' lvl, (c.onNotifs S U.alnum ns).undo S U l 1 =
+        .ok (⟨lvl, c.undos, [.insert lb0.pos (List.replicate n text).flatten]⟩, lb', true) ∧
+      lb'.buf = lb0.buf := by
+  rcases yank_reports_one S U lb0 l text n hn _ ns hy with ⟨h, _⟩ | ⟨hte, x, z, hs, hbuf, hns, _⟩
+  · cases h
+  · have hT : (List.replicate n text).flatten.isEmpty = false := by
+      cases n with
+      | zero => omega
+      | succ m => cases text with
+        | nil => exact absurd rfl hte
+        | cons a t => simp [List.replicate_succ]
+    have hu : (c.onNotifs S U.alnum ns).undos = .insert lb0.pos (List.replicate n text).flatten :: c.undos := by
+      simp [hns, Changeset.onNotifs, Changeset.onNotif, Changeset.insertStr, hT]
+    have hr : (c.onNotifs S U.alnum ns).redos = [] := by
+      simp [hns, Changeset.onNotifs, Changeset.onNotif, Changeset.insertStr, hT]
+    have hl : (c.onNotifs S U.alnum ns).level = c.level := by
+      simp [hns, Changeset.onNotifs, Changeset.onNotif, Changeset.insertStr, hT]
+    refine ⟨hu, hl, ?_⟩
+    obtain ⟨e1, e2⟩ := splitAtByte_some hs
+    have hf : applyFwd (.insert lb0.pos (List.replicate n text).flatten) lb0.buf = some l.buf := by
+      rw [hbuf]; exact applyFwd_insert.mpr ⟨x, z, e1, e2, rfl⟩
+    obtain ⟨lb', h1, h2⟩ := undoOn_inverts S U _ rfl lb0.buf l.buf l hf rfl
+    have hall : undoAll (fun ch lb => ch.undoOn S U lb) [.insert lb0.pos (List.replicate n text).flatten] l = .ok lb' := by
+      simp [undoAll, Change.isMarker, h1]
+    obtain ⟨lvl, h3⟩ := C05_undo_unit_model S U _ c.undos [] (.change _ rfl) l lb'
+      (c.onNotifs S U.alnum ns).level hall
+    refine ⟨lb', lvl, ?_, h2⟩
+    simp only [Changeset.undo, hu, hr]
+    simp only [List.cons_append, List.nil_append] at h3
+    rw [h3]
+    simp [Change.isMarker]
+
+/-- non-vacuity: "ab" yanked three times into "xy" at the cursor 1 -/
+example : LB.yank charSeg C05_wit_udata ['a', 'b'] 3 { buf := ['x', 'y'], pos := 1, cap := 16, canGrow := true } =
+    .ok (some false, { buf := ['x', 'a', 'b', 'a', 'b', 'a', 'b', 'y'], pos := 7, cap := 16, canGrow := true },
+      [.insStr 1 ['a', 'b', 'a', 'b', 'a', 'b']]) := by rfl
+
+/-! ### a counted character insertion is one undo unit -/
+
+/-- **A character inserted with a repeat count `n ≥ 2` is taken back by one Undo — all `n` copies and nothing
+    else.**  Whatever is on the undo stack `c` (also a run of typed alphanumerics: the `n` copies are NOT
+    merged into it), a successful `LineBuffer::insert(ch, n)` on the line `lb0` — the call the editor makes
+    for `SelfInsert` with a numeric argument — adds exactly ONE entry `Insert(cursor, ch × n)` on top of
+    the stack, leaves the group level alone, and the next `undo(line, 1)` pops exactly that entry and
+    restores the text the line had before the insertion.  (`n = 1` is the merging case of ordinary typing:
+    `C05_log_replay`; an alphanumeric typed right AFTER the `n` copies is merged into the entry, D22.) -/
+theorem C05_counted_insert_one_unit (S : Segmenter) (U : UData) (c : Changeset) (lb0 l : LB) (ch : Char)
+    (n : Nat) (hn : 2 ≤ n) (push : Bool) (ns : List Notif)
+    (hy : LB.insert S U ch n lb0 = .ok (some push, l, ns)) :
+    (c.onNotifs S U.alnum ns).undos = .insert lb0.pos (List.replicate n ch) :: c.undos ∧
+    (c.onNotifs S U.alnum ns).level = c.level ∧
+    ∃ lb' lvl, (c.onNotifs S U.alnum ns).undo S U l 1 =
+        .ok (⟨lvl, c.undos, [.insert lb0.pos (List.replicate n ch)]⟩, lb', true) ∧
+      lb'.buf = lb0.buf := by
+  rcases insert_reports_one S U lb0 l ch n hn _ ns hy with ⟨h, _⟩ | ⟨x, z, hs, hbuf, hns, _⟩
+  · cases h
+  · have hT : (List.replicate n ch).isEmpty = false := by
+      cases n with
+      | zero => omega
+      | succ m => simp [List.replicate_succ]
+    have hu : (c.onNotifs S U.alnum ns).undos = .insert lb0.pos (List.replicate n ch) :: c.undos := by
+      simp [hns, Changeset.onNotifs, Changeset.onNotif, Changeset.insertStr, hT]
+    have hr : (c.onNotifs S U.alnum ns).redos = [] := by
+      simp [hns, Changeset.onNotifs, Changeset.onNotif, Changeset.insertStr, hT]
+    have hl : (c.onNotifs S U.alnum ns).level = c.level := by
+      simp [hns, Changeset.onNotifs, Changeset.onNotif, Changeset.insertStr, hT]
+    refine ⟨hu, hl, ?_⟩
+    obtain ⟨e1, e2⟩ := splitAtByte_some hs
+    have hf : applyFwd (.insert lb0.pos (List.replicate n ch)) lb0.buf = some l.buf := by
+      rw [hbuf]; exact applyFwd_insert.mpr ⟨x, z, e1, e2, rfl⟩
+    obtain ⟨lb', h1, h2⟩ := undoOn_inverts S U _ rfl lb0.buf l.buf l hf rfl
+    have hall : undoAll (fun ch lb => ch.undoOn S U lb) [.insert lb0.pos (List.replicate n ch)] l = .ok lb' := by
+      simp [undoAll, Change.isMarker, h1]
+    obtain ⟨lvl, h3⟩ := C05_undo_unit_model S U _ c.undos [] (.change _ rfl) l lb'
+      (c.onNotifs S U.alnum ns).level hall
+    refine ⟨lb', lvl, ?_, h2⟩
+    simp only [Changeset.undo, hu, hr]
+    simp only [List.cons_append, List.nil_append] at h3
+    rw [h3]
+    simp [Change.isMarker]
+
+/-- non-vacuity: `z` inserted three times into "xy" at the cursor 1 -/
+example : LB.insert charSeg C05_wit_udata 'z' 3 { buf := ['x', 'y'], pos := 1, cap := 16, canGrow := true } =
+    .ok (some false, { buf := ['x', 'z', 'z', 'z', 'y'], pos := 4, cap := 16, canGrow := true },
+      [.insStr 1 ['z', 'z', 'z']]) := by rfl
